@@ -5,11 +5,11 @@ import json
 
 claimed = {
  "C20": dict(level="exploration", engine="I",
-   text="bounded-exhaustive enumeration of message shapes (every list of <=3/4 attribute kinds x 7 integrity/fingerprint endings, plus 16-fold repetitions); every hot-path operation is measured with testing.AllocsPerRun in a dedicated GOMAXPROCS(1), GC-off process under two warm-up regimes; a non-zero reading must repeat 5 times before it counts",
+   text="bounded-exhaustive enumeration of message shapes (every list of <=2/3 attribute kinds (15 kinds) x 7 integrity/fingerprint endings, plus 16-fold repetitions up to 12 KB); every hot-path operation is measured with testing.AllocsPerRun in a dedicated GOMAXPROCS(1), GC-off process under two warm-up regimes; a non-zero reading must repeat 5 times before it counts",
    note="measurement oracle tied to go1.23.5's escape analysis; one known finding (MessageIntegrity.Check needs 20 bytes of spare capacity) in KNOWN_FINDINGS.txt",
    technique="bounded exhaustive enumeration of message shapes with a measurement oracle", ref="DESIGN.md section 2 C20"),
  "C10": dict(level="model_checking", engine="H+S",
-   text="stateless model checking of the real Client on the rewritten library: every event history up to depth 4/5 (each event run to quiescence, all free thread choices, two epilogues) and 10 concurrent scenarios explored over every interleaving within preemption bound 2/3 plus environment deviations (pool object choice, map order); exactly-once, argument class, Start-error-implies-no-handler, Do-returns-after-handler and deadlock freedom are evaluated on every execution",
+   text="stateless model checking of the real Client on the rewritten library: every event history up to depth 4/5 (each event run to quiescence, all free thread choices, two epilogues; also from a non-initial state and with 99..250 transactions) and 11 concurrent scenarios explored over every interleaving within preemption bound 2/3 plus environment deviations (pool object choice, map order); exactly-once, argument class, Start-error-implies-no-handler, Do-returns-after-handler and deadlock freedom are evaluated on every execution",
    note="tickerCollector, real sockets and real time are replaced by injected doubles; responses obey causality; mutex release is not a scheduling point; races inside one step are invisible to the cooperative scheduler (see the -race pass); bounds: history depth, preemption bound, 2 environment deviations; 3 transaction ids",
    technique="stateless model checking of the implementation: controlled scheduler + preemption-bounded DFS over all interleavings and environment answers", ref="DESIGN.md section 2 C10"),
  "C11": dict(level="model_checking", engine="H+S",
@@ -17,15 +17,15 @@ claimed = {
    note="tickerCollector, real sockets and real time are replaced by injected doubles; responses obey causality; mutex release is not a scheduling point; races inside one step are invisible to the cooperative scheduler (see the -race pass); attempt limits other than 0 and 7 are not reachable through the public API and are not explored",
    technique="explicit-state enumeration of event histories on the real client under a controlled scheduler and virtual clock", ref="DESIGN.md section 2 C11"),
  "C12": dict(level="model_checking", engine="H+S",
-   text="every history up to depth 4/5 over three one-bit-apart ids, responses/duplicates, unknown ids and four kinds of undecodable datagrams with pool Get branching over recycled objects, with and without fallback handler; three concurrent scenarios incl. probe transactions on recycled objects; one 2000-transaction history; every handler invocation is checked for id, datagram identity and single consumption",
+   text="every history up to depth 4/5 over three one-bit-apart ids, responses/duplicates, unknown ids and four kinds of undecodable datagrams with pool Get branching over recycled objects, with and without fallback handler; three concurrent scenarios incl. probe transactions on recycled objects; one 2000-transaction history; every handler invocation is checked for id, for a Message that is the decode of exactly a delivered datagram (fields and attributes), for delivery to the in-flight transaction and for single consumption",
    note="tickerCollector, real sockets and real time are replaced by injected doubles; responses obey causality; mutex release is not a scheduling point; races inside one step are invisible to the cooperative scheduler (see the -race pass); 500 concurrent transactions and random ids are not attempted",
    technique="stateless model checking of the implementation with environment-choice exploration (pool recycling) under a controlled scheduler", ref="DESIGN.md section 2 C12"),
  "C15": dict(level="model_checking", engine="H+S",
-   text="9 option sets x every history up to depth 4/5 ending in one or several Close calls, 8 concurrent Close scenarios x 4 option sets over every interleaving within preemption bound 2/3; Close result, goroutine exit, collector/connection close counts, silence after Close and ErrClientClosed from later calls are evaluated on every execution; deadlock = no enabled thread",
+   text="11 option sets (incl. handlers that call back into the client) x every history up to depth 4/5 ending in one or several Close calls, 9 concurrent Close scenarios x 5 option sets and 4 scenarios on a transport with blocking writes over every interleaving within preemption bound 2/3; Close result, goroutine exit, collector/connection close counts, silence after Close and ErrClientClosed from later calls are evaluated on every execution; deadlock = no enabled thread",
    note="tickerCollector, real sockets and real time are replaced by injected doubles; responses obey causality; mutex release is not a scheduling point; races inside one step are invisible to the cooperative scheduler (see the -race pass); the data-race clause is covered only by the free-running -race pass over the same scenario bodies (sampled schedules, reported separately)",
    technique="stateless model checking of the implementation: controlled scheduler + preemption-bounded DFS", ref="DESIGN.md section 2 C15"),
  "C14": dict(level="model_checking", engine="S",
-   text="all programs of 2 threads x <=2 operations and 3 threads x 1 operation over 7 agent operations x 3 initial tables x 3 handler re-entrancy modes, every interleaving (preemption bound 3 quick, unbounded thorough) on the real Agent; each recorded history is checked for linearizability against the transaction-table model by brute force, and for deadlock",
+   text="all programs of 2 threads x <=2 operations and 3 threads x 1 operation over 7 agent operations x 3 initial tables x 3 handler re-entrancy modes, an extended 3-operation family with overlapping and re-entrant Collects, and Collect over 104 expired transactions against Stop/Close/Start, every interleaving (preemption bound 3 quick, unbounded thorough) on the real Agent; each recorded history is checked for linearizability against the transaction-table model by brute force, and for deadlock",
    note="mutex release is not a scheduling point; the data-race clause is covered only by the free-running -race pass (sampled schedules); 2..16 goroutines of the quantifier are covered up to 3",
    technique="stateless model checking of the implementation + brute-force linearizability checking of every explored history", ref="DESIGN.md section 2 C14"),
  "C18": dict(level="model_checking", engine="H+S",
@@ -41,7 +41,7 @@ claimed = {
    note="message family of 12 (sizes 20..1225 bytes); poison bytes 0xD7/0xFF/0x01/seed",
    technique="explicit-state enumeration of use histories with a differential (fresh twin) oracle", ref="DESIGN.md section 2 C08"),
  "C13": dict(level="model_checking", engine="H",
-   text="breadth-first search over the real Agent to a fixed point of (model state, full private state dump): all 251 reachable states of the 3-id x 4-deadline table x handler, every one of the 30 operations from every state, each compared (return value, event multiset, handler identity, message pointer) with the transaction-table model; plus all operation sequences of depth 4/5 without merging",
+   text="breadth-first search over the real Agent to a fixed point of (model state, full private state dump): all reachable states (433) of the 3-id table with 7 deadline values x handler, every one of the 39 operations from every state, each compared (return value, event multiset, handler identity, message pointer) with the transaction-table model; plus all operation sequences of depth 4/5 without merging, the same at depth 3/4 with handlers that call back into the agent, 0..300 transactions at one Collect, and Collect nested in a timeout handler",
    note="complete for the stated alphabet; long random sequences over many ids are not attempted",
    technique="explicit-state model checking of the implementation against a reference model (BFS to fixed point, replay-to-reach)", ref="DESIGN.md section 2 C13"),
  "C04": dict(level="exploration", engine="I",
